@@ -257,6 +257,10 @@ class AstToSqlVisitor(visitor.NodeVisitor):
         ":meta private:"
         return "NOT"
 
+    def visit_USub(self, node: ast.USub) -> str:
+        ":meta private:"
+        return "-"
+
     def visit_UnaryOp(self, node: ast.UnaryOp) -> str:
         ":meta private:"
         op = self.visit(node.op)
